@@ -25,7 +25,10 @@ FlagLike(t) == {[typ |-> t, form |-> "bare", op |-> "", val |-> "", strict |-> F
 VarForms == {[typ |-> "var", form |-> "bare", op |-> "", val |-> "", strict |-> FALSE]}
             \cup {[typ |-> "var", form |-> "cmp", op |-> o, val |-> v, strict |-> s] :
                      o \in {"==", "!=", "<", "<=", ">", ">="}, v \in {"1", "VAR_Z + 2"}, s \in BOOLEAN}
-Forms == FlagLike("flag") \cup FlagLike("defeated") \cup VarForms
+(* an AutoVar command as operand: compared like a var *)
+AutoForms == {[typ |-> "auto", form |-> "bare", op |-> "", val |-> "", strict |-> FALSE]}
+             \cup {[typ |-> "auto", form |-> "cmp", op |-> o, val |-> "1", strict |-> FALSE] : o \in {"==", "!=", "<", ">="}}
+Forms == FlagLike("flag") \cup FlagLike("defeated") \cup VarForms \cup AutoForms
 
 ASSUME PrintT(<<"shapes", [n \in 1..MaxLeaves |-> Cardinality(E(n))], "forms", Cardinality(Forms)>>)
 ASSUME ndJsonSerialize("shapes.ndjson", SetToSeq(Shapes))
